@@ -37,6 +37,11 @@ def step (d : DSt) (fields : List String) (impl : String) : DSt × Reply :=
   match fields with
   | ["send", _, _, b, k] => seqStep d b k impl
   | ["sendraw", b, k] => seqStep d b k impl
+  | ["sendiq", _, b, k] => seqStep d b k impl     -- SendIQ: the request is one send like any other, whatever its id
+  | ["wsfail"] =>
+    -- the peer closed the WebSocket connection: the first send went through, later Send and SendRaw report errors
+    let ok := impl == "first=true senderr=true rawerr=true"
+    (d, ⟨"first=true senderr=true rawerr=true", ok, true, ok, "-"⟩)
   | ["stress", _, _, g, k] =>
     match g.toNat?, k.toNat? with
     | some g, some k =>
